@@ -16,7 +16,7 @@ from thermosteam import functional as fn, Thermo
 from . import indexer
 from . import equilibrium as eq
 from . import units_of_measure as UofM
-from .exceptions import DimensionError, InfeasibleRegion
+from .exceptions import DimensionError, InfeasibleRegion, UndefinedPhase
 from chemicals.elements import array_to_atoms, symbol_to_index
 from . import utils
 from .indexer import nonzeros
@@ -414,7 +414,7 @@ class Stream(AbstractStream):
     def __getitem__(self, key):
         phase = self.phase
         if key.lower() == phase.lower(): return self
-        raise tmo.UndefinedPhase(phase)
+        raise UndefinedPhase(key)
     
     def __reduce__(self):
         return self.from_data, (self.get_data(), self._ID or None, self._price, self.characterization_factors, self._thermo)
